@@ -131,8 +131,20 @@ EXTRA3 = {
     "C06": " C06.sem.*.translates: the operators of the backend's own opcode table on int / uint / float, argument loads and type-matching returns must be translated (refusal is acceptable only outside that subset). Known finding D24 (C06.chain): the VM's integers are unbounded, the module wraps.",
     "C01": " Known finding D25: a side effect in the index of a compound-assignment target happens twice.",
 }
-for _k, _v in EXTRA3.items():
-    EXTRA_TEXT[_k] = EXTRA_TEXT.get(_k, "") + _v
+EXTRA5 = {
+    "C01": " Programs compiled with `optimize` and the load-after-store families also serve C01 (a compiled program is whatever the options were). E2E.process-history (bounded): programs that give the same names different meanings, compiled by fresh Compiler objects in one process. FRONT.rewrite.descends: compound assignments nested in an assignment are rewritten too (defect 1be936d).",
+    "C03": " E2E.process-history (bounded; see C01): overload sets that change from one program of the process to the next.",
+    "C04": " C04.swizzle.type: the type of a swizzle is the component type / the vector of the operand's own component type, whatever was typed before in the process. IR.opt.las also serves C04 (a call between a store and a load of a global vector).",
+    "C05": " C12.scopes / C12.e2e also serve C05 (the lowering keys locals by name: an accepted redeclaration is a TypeError / KeyError at run time). C05.shape-compat: a value reaches a declared type only with that type's shape, else the program is rejected -- known finding D26 (100 incompatible pairs accepted; the repair breaks two of the repository's own tests). C05.function-end: known finding D28 (falling off the end of a function with a result yields None).",
+    "C06": " C06.functions-independent: in a module of several functions every function has the signature and the body it has when compiled alone (generator state surviving from one function to the next).",
+    "C10": " E2E.process-history (bounded; see C01).",
+    "C14": " IR.constant.stays-listed: every constant handed out stays a constant of the function, for all ordered pairs of requests that compare equal in Python (1 / 1.0, 0 / 0.0).",
+    "C16": " C16.e2e.recompiled-library (bounded): a library stored again under the same name is what a client compiled afterwards sees. E2E.process-history.",
+    "C20": " A text starting with a byte order mark (offsets count it; the automaton is handed exactly the caller's text). FRONT.rewrite.range and C20.e2e.pipeline (bounded): after rewrite-assign-equal + update-locations every range is a range of the text.",
+}
+for _d in (EXTRA3, EXTRA5):
+    for _k, _v in _d.items():
+        EXTRA_TEXT[_k] = EXTRA_TEXT.get(_k, "") + _v
 GEN_TEXT = " E2E.generated.* (sampled, reported as bounded, never counted as proved): a seeded generator (contracts/gen_c.py) writes scalar-core programs -- helpers, globals, arrays, nested loops with break/continue, all operator forms -- and each is compiled by the real compiler and run by the real VM on SYMBOLIC inputs against the reference interpreter, so each holds for all inputs of its program; 64 programs in the quick tier, 1600 more in the thorough tier."
 for _k in ("C01", "C02", "C03", "C05", "C08", "C14"):
     EXTRA_TEXT[_k] = EXTRA_TEXT.get(_k, "") + GEN_TEXT
